@@ -129,5 +129,21 @@ META.update({
         design_ref='DESIGN.md section 6, C19', note=NOTE_DISP, technique=TECH),
 })
 
+META.update({
+    'C15': dict(
+        text='Theorems Props.C15, C15_length_invariant, C15_errors (Coq, no axioms): for every scripted behaviour of the underlying '
+             'writer (partial and failing Write calls at any position), with or without a compressing writer in between, every '
+             'pretty-print setting and every history of the Response\'s non-deprecated writing calls in which the status is set at '
+             'most once and before any Write call, StatusCode() equals the status the writer received (200 if none) and '
+             'ContentLength() equals the bytes accepted (pre-coding when a compressor sits in between); the length equation is an '
+             'invariant of every call with no premise; every call during which the underlying writer failed returns an error. '
+             'Marshalled bytes and their chunking are inputs. Tied to /repo by running the same histories on the real Response '
+             '(directly and inside a container, values read in a trailing filter).',
+        design_ref='DESIGN.md section 6, C15',
+        note='trusted: Coq kernel, extraction+driver, Go harness; encoding/json|xml output (dry run) and compress/gzip are inputs / '
+             'assumed; the tie is differential testing',
+        technique=TECH),
+})
+
 ALL = ['C%02d' % i for i in range(1, 20)]
 NOT_APPLICABLE = [dict(property_id=p, reason=PARTIAL_NOT_YET) for p in ALL if p not in META]
